@@ -207,13 +207,13 @@ func (b *BitStorage) Fix(bits int) error {
 		b.valuesPerLong = 0
 		return nil
 	}
-	b.mask = 1<<bits - 1
-	b.bits = bits
-	b.valuesPerLong = 64 / bits
-	// check data length
+	// check data length first: a refused Fix leaves the storage as it was
 	dataLen := calcBitStorageSize(bits, b.length)
 	if l := len(b.data); l != dataLen {
 		return newBitStorageErr{ArrlLen: l, WantLen: dataLen}
 	}
+	b.mask = 1<<bits - 1
+	b.bits = bits
+	b.valuesPerLong = 64 / bits
 	return nil
 }
